@@ -35,6 +35,9 @@ func main() {
 			rep.Errors = append(rep.Errors, c.Family+": "+err.Error())
 			continue
 		}
+		if !conc.Bounded(bc, c.Recover, *vms) {
+			continue
+		}
 		rep.Cases++
 		_, diffs := conc.RunConcurrent(c, bc, *vms, *k)
 		rep.Runs += *vms * *k
